@@ -188,6 +188,8 @@ def handlers : List (String × Handler) := [
         | "linear_monotonicities" => some Tfl.Configs.nLinearMono
         | "float_or_num_keypoints" => some Tfl.Configs.nFloatOr
         | "as_tuples" => some Tfl.Configs.nAsTuples
+        | "wrap_canonicalize_trust" => some Tfl.Configs.nWrapCanonTrust
+        | "wrap_as_tuples" => some Tfl.Configs.nWrapAsTuples
         | _ => none
       pure (showVal (Tfl.Configs.valNorm id o v))
     | _ => none),
